@@ -4,6 +4,7 @@
     are proved equal to it in FlatProofs.  [geom_ok] is what verif_geometry() may report for any
     reachable queue.  [req_spec] is the closed form of the worst-case space requirement. *)
 From Coq Require Import ZArith List Bool.
+From Stk Require Import Lib.U Gen.SrcFlat.
 Import ListNotations.
 Local Open Scope Z_scope.
 
@@ -14,9 +15,10 @@ Definition req_spec (size align : Z) : Z := up (Z.max 8 align + size) 8.
 
 Definition is_pow2 (n : Z) : bool := (0 <? n) && (2 ^ Z.log2 n =? n).
 
-(** (base, len, cap) of a reachable queue: unallocated, or a power-of-two capacity of at least 1 KiB
-    at an 8-aligned address, with an 8-aligned fill level inside it. *)
+(** (base, len, cap) of a reachable queue: unallocated, or a power-of-two capacity of at least
+    INITIAL_ALLOCATION (the generated constant: 1 KiB) at an 8-aligned address, with an 8-aligned fill
+    level inside it. *)
 Definition geom_ok (g : Z * Z * Z) : bool :=
   let '(base, len, cap) := g in
   ((cap =? 0) && (len =? 0))
-  || ((1024 <=? cap) && is_pow2 cap && (base mod 8 =? 0) && (0 <=? len) && (len <=? cap) && (len mod 8 =? 0)).
+  || ((INITIAL_ALLOCATION <=? cap) && is_pow2 cap && (base mod 8 =? 0) && (0 <=? len) && (len <=? cap) && (len mod 8 =? 0)).
